@@ -311,4 +311,16 @@ func init() {
 			nontrivial: func(o *SeqOutcome) bool { return o.Probes["iterator-loop-body-wrote"] > 0 },
 		})
 	}
+	// C17 (cache level): "dropping reads never changes what any cache operation returns". Whole-API
+	// programs against the reference model - which knows nothing about a read buffer - with a single
+	// 16-slot read-buffer stripe, bursts of 17-40 reads and a harness-held executor, so that the
+	// buffer is saturated and read events are dropped all the time; every mismatch of such a run is
+	// (also) C17's.
+	Props["C17"].Engines = append(Props["C17"].Engines, &seqEngine{
+		profile: Profile{Prop: "C17", AlsoProp: "C17", Executor: []string{"queued"}, NoRef: true, SmallReadBuf: true, ReadBursts: true, Keys: [2]int{2, 8}, MinOps: 30, MaxOps: 200,
+			// (views that lag behind pending maintenance are left out, as in C13's queued-executor engine)
+			OpW: w(defaultOpW, map[string]int{"get": 40, "getentry": 8, "advance": 10, "runexec": 4, "cleanup": 3,
+				"hottest": 0, "coldest": 0, "setmax": 0, "getmax": 0, "wsize": 0, "esize": 0, "stats": 0})},
+		nontrivial: func(o *SeqOutcome) bool { h, _ := probeSum(o, "op:get@", "live"); return h >= 17 },
+	})
 }
